@@ -86,7 +86,7 @@ pub fn c01(f: &Facts, o: &Outcome) -> Vec<String> {
     if let (Some(t), Some(l)) = (pos(o, |e| matches!(e, Event::Send(CbPacket::Transfer { .. }))), pos(o, |e| matches!(e, Event::Send(CbPacket::LoginSuccess { .. })))) { if t < l { why.push("Transfer before Login Success".into()); } }
     else if ss.iter().any(|p| matches!(p, CbPacket::Transfer { .. })) { why.push("Transfer without Login Success".into()); }
     // failure cases: nothing granted, the connection ends
-    let enc_bad = matches!(f.enc, Some(EncKind::WrongToken | EncKind::StaleToken | EncKind::OtherKey | EncKind::Garbage | EncKind::GarbageToken));
+    let enc_bad = matches!(f.enc, Some(EncKind::WrongToken | EncKind::StaleToken | EncKind::OtherKey | EncKind::Garbage | EncKind::GarbageToken | EncKind::TokenPrefix(_)));
     let auth_failed = !auth_calls.is_empty() && f.sc.verdicts.auth.is_err();
     if (enc_bad || auth_failed) && granted { why.push("Login Success / auth cookie / Transfer sent although authentication failed".into()); }
     if (enc_bad || auth_failed) && !o.result.starts_with("err") { why.push(format!("connection did not end with an error after failed authentication: {}", o.result)); }
@@ -161,6 +161,16 @@ pub fn c03(f: &Facts, o: &Outcome) -> Vec<String> {
         _ => {}
     }
     if (v.discover.is_err() || v.filter.is_err() || v.select.is_err()) && !transfers.is_empty() && selected { why.push("Transfer although discovery, filtering or selection failed".into()); }
+    // every Transfer is to the target the strategy chose on this connection
+    if !transfers.is_empty() {
+        if calls(o, "call:select:").is_empty() { why.push("Transfer although the strategy was never consulted".into()); }
+        match &v.select {
+            Ok(Some(i)) => { let t = &v.targets[*i]; for tr in &transfers { if let CbPacket::Transfer { host, port } = tr { if host != t.address.ip().to_string().as_bytes() || *port != i32::from(t.address.port()) { why.push(format!("Transfer to {}:{} but the strategy's answer is {}", String::from_utf8_lossy(host), port, t.address)); } } } }
+            Ok(None) => why.push("Transfer although the strategy chose no target".into()),
+            Err(()) => why.push("Transfer although the strategy failed".into()),
+        }
+    }
+    why.sort(); why.dedup();
     why
 }
 
@@ -188,6 +198,8 @@ pub fn c06(f: &Facts, o: &Outcome) -> Vec<String> {
         };
         match next { Some(n) => q = n, None => { why.push(format!("packet {} out of protocol order (state {:?})", p.canonical().chars().take(40).collect::<String>(), q)); break; } }
     }
+    // a handshake announcing an unknown next state is never answered
+    if ![1, 2, 3].contains(&f.intent) && !ss.is_empty() { why.push(format!("handshake with unknown next state {} was answered with {}", f.intent, ss[0].canonical().chars().take(40).collect::<String>())); }
     // Login Success only after a valid Encryption Response
     if ss.iter().any(|p| matches!(p, CbPacket::LoginSuccess { .. })) && !matches!(f.enc, Some(EncKind::Honest)) { why.push("Login Success without a valid Encryption Response".into()); }
     // routing only after Login Acknowledged and Client Information were sent by the client
